@@ -32,7 +32,9 @@ N_CASES = {"quick": 2500, "thorough": 50000}
 
 STATUSES = [200, 200, 200, 201, 204, 206, 301, 304, 404, 418, 500, 599]
 SERVER_NAMES = {b"date", b"server", b"alt-svc", b"connection", b"transfer-encoding"}
-_RH = ["x-a", "x-b", "content-type", "set-cookie", "cache-control", "x-long-header-name-abcdefghijklmnopqrstuvwxyz", "vary", "etag"]
+# incl. names the server also produces itself (an application relaying an upstream's headers): they are the application's all the same
+_RH = ["x-a", "x-b", "content-type", "set-cookie", "cache-control", "x-long-header-name-abcdefghijklmnopqrstuvwxyz", "vary", "etag",
+       "date", "server", "alt-svc"]
 
 
 def gen_resp(rng, tag, tier, h2, method):
@@ -192,7 +194,7 @@ def _case_h2(rng, tier, n, h2c=False):
             "sched": {"seed": rng.randrange(1 << 30), "net_jitter": rng.choice([None, None, [0.3, 3]])}}
 
 
-def gen(rng, tier):
+def _gen(rng, tier):
     for i in range(N_CASES[tier]):
         r = rng.random()
         if r < 0.45:
@@ -201,6 +203,16 @@ def gen(rng, tier):
             yield _case_h2(rng, tier, i)
         else:
             yield _case_h2(rng, tier, i, h2c=True)
+
+
+def gen(rng, tier):
+    for case in _gen(rng, tier):
+        if rng.random() < 0.25:
+            # pieces of a segmented write a few scheduler turns apart instead of after the server has come to rest
+            turns = [rng.choice([0, 1, 2, 3, 5]) for _ in range(5)]
+            case["client"] = [st + [turns] if st[0] == "feed_split" and len(st) == 3 else st for st in case["client"]]
+            case["family"] += ".staggered"
+        yield case
 
 
 def nontrivial(case, obs):
